@@ -69,6 +69,8 @@ def explore_config(case):
     # ---------------- direct numeric use of the API, object reuse, argument mutation (see numapi) -------
     numapi.check_group(res, B, [e["p"] for e in alpha.reduced(elems, 16 if not is_dp else 8)], [x["p"] for x in alpha.reduced(xs, 16 if not is_dp else 8)],
                        case, "config", ("Ad", "ad", "bracket"))
+    numapi.check_forms(res, B, [e["p"] for e in alpha.reduced(elems, 16 if not is_dp else 8)], [x["p"] for x in alpha.reduced(xs, 16 if not is_dp else 8)],
+                       case, "config", ("Ad", "ad", "bracket"))
     # ---------------- shapes ---------------------------------------------------------------------
     if ok_("Ad"):
         A0 = B.call("Ad", elems[0]["p"])
